@@ -13,6 +13,7 @@ GNext ==
                                                          id |-> got[c], cached |-> fromCache[c]])
   \/ \E n \in Names, k \in BOOLEAN : AllIdle /\ Rotate(n, k) /\ hist' = Append(hist, [op |-> IF k THEN "RotateKeep" ELSE "RotateDrop", name |-> n, want |-> 0, id |-> 0, cached |-> FALSE])
   \/ AllIdle /\ Expire /\ hist' = Append(hist, [op |-> "Expire", name |-> "", want |-> 0, id |-> 0, cached |-> FALSE])
+  \/ AllIdle /\ Outage /\ hist' = Append(hist, [op |-> IF down THEN "Up" ELSE "Down", name |-> "", want |-> 0, id |-> 0, cached |-> FALSE])
 GSpec == GInit /\ [][GNext]_gvars
 Export == (ops = MaxOps /\ \A c \in Clients : pc[c] = "idle") => PrintT("BEH " \o ToJson([steps |-> hist]))
 =============================================================================
